@@ -7,7 +7,6 @@ of this property were written against (`Tea.Doc`). Written by checklib/mkbridges
 -/
 namespace Tea.Props.Bridge.C14
 
-theorem body_standardRenderer_handleMessages : Tea.Gen.fact_body_standardRenderer_handleMessages = Tea.Doc.fact_body_standardRenderer_handleMessages := rfl
 theorem body_Program_Println : Tea.Gen.fact_body_Program_Println = Tea.Doc.fact_body_Program_Println := rfl
 theorem body_Program_Printf : Tea.Gen.fact_body_Program_Printf = Tea.Doc.fact_body_Program_Printf := rfl
 theorem locks : Tea.Gen.fact_locks = Tea.Doc.fact_locks := rfl
